@@ -139,9 +139,25 @@ func main() {
 	if r.Replay != "" {
 		var c Case
 		r.LoadReplay(&c)
-		emit(c, ticksOf(c) <= 1<<23)
+		switch {
+		case c.Search != nil:
+			EmitSearch(r, c, true)
+		case c.Live:
+			searchEmitPlain(c, "live-replay", 20)
+		case c.NextID > 0:
+			searchEmitPlain(c, "id-wrap-replay", 1)
+		default:
+			emit(c, ticksOf(c) <= 1<<23)
+		}
 		r.Sample(c)
 		return
+	}
+	if r.Search {
+		searchLegs()
+		if r.Failed() {
+			r.Note("the search legs found a failing input; the ordinary generators were not run again")
+			return
+		}
 	}
 	R := r.R
 	modelBudget := int64(r.Scale(40_000_000, 600_000_000)) // ticks the Lean model is asked to run in total
